@@ -30,7 +30,12 @@ run_race() { # $1 = part file
   if [ $rc = 66 ]; then
     head -60 "$B/race.log" >&2
     printf '{"name":"race-pass","cov":{"race_pass":"DATA RACE reported"},"samples":[],"assumptions":[],"viols":[{"signature":"data-race","detail":"the Go race detector reported a data race in a free-running execution of the scenario bodies (first report in .build/mc/%s/race.log)","replay":{"mode":"race"}}],"known":[],"capped":[],"states":1,"transitions":1,"validated":1,"wall":0}' "$lc" > "$1"
-  elif [ $rc != 0 ]; then cat "$B/race.log" >&2; echo "INFRASTRUCTURE ERROR: race pass failed" >&2; exit 2; fi
+  elif [ $rc != 0 ]; then
+    # the free-running pass itself broke (e.g. the library panicked in a goroutine it started): the pass
+    # is a side condition only, so this is recorded, and the controlled part's verdict stands
+    tail -5 "$B/race.log" >&2
+    printf '{"name":"race-pass","cov":{"race_pass":"not completed: the free-running executions crashed (exit status %s)"},"samples":[],"assumptions":[],"viols":[],"known":[],"capped":["race pass not completed"],"states":0,"transitions":0,"validated":0,"wall":0}' "$rc" > "$1"
+  fi
 }
 tier="${1:-quick}"
 if [ -n "${VERIF_PART:-}" ]; then
